@@ -165,6 +165,18 @@ func c17r3(r *R) {
 				incl := guardedBy(c.Block(), func(s string) bool { return strings.HasSuffix(s, ".Exclude") && strings.HasPrefix(s, "!") })
 				va := variadicArgs(c.Common().Args[1])
 				elemOK := len(va) == 1 && strings.HasSuffix(describe(va[0]), ".Regexp")
+				// ... and by nothing else: any further condition lets an item fall into neither list
+				for _, g := range guardStrings(c.Block()) {
+					gg := strings.TrimLeft(g, "!")
+					if strings.HasSuffix(gg, ".Exclude") || strings.Contains(gg, "builtin len($0)") || strings.HasPrefix(gg, "next(range($0))") {
+						continue
+					}
+					okAll = false
+					why = "append at " + r.rel(c.Pos()) + " happens only when " + g + ": a rule that fails this test is dropped from the list"
+				}
+				if why != "" {
+					return false
+				}
 				if want == "exclude" && !excl || want == "include" && !incl || !elemOK {
 					okAll = false
 					why = "append at " + r.rel(c.Pos()) + " feeds the " + want + " argument but is guarded by " + strings.Join(guardStrings(c.Block()), ",") + " elem=" + describe(c.Common().Args[1])
